@@ -457,6 +457,7 @@ func runC20(c *Ctx) {
 	c.Rule("for every client operation (stat, open, readlink, readdir, rename, sequential read, statvfs, concurrent ReadAt, WriteTo; the multi-chunk transfers concurrent WriteAt, ReadFromWithConcurrency, concurrent ReadAt and WriteTo with EVERY chunk reply replaced and the replies of chunks outstanding together written newest first; and, judged by the crash/hang/follow-up/Close/allocation oracles only, Remove (the REMOVE and the RMDIR reply), MkdirAll (the STAT and the MKDIR reply), RemoveAll, RealPath, Mkdir, Symlink, Chmod, File.Truncate, PosixRename, Lstat, File.Stat, Create, Glob): the valid reply cut at every byte, " +
 		"every 4-byte window replaced by 0,1,n-1,n+1,2^20,2^31-1,2^32-1 and the multiples of 2^29 (counts whose size computation wraps), every other reply type substituted, random bytes; for stat and readdir additionally replies carrying extended attributes, mutated the same way; each case in a child process; " +
 		"non-trivial = reply that is not the valid one")
+	c20FrameCuts(c)
 	valid := map[string][]byte{
 		"status":   pkt(fxpStatus, 0).u32(2).str("no such file").str("en").b,
 		"statusok": pkt(fxpStatus, 0).u32(0).str("").str("").b,
